@@ -173,6 +173,23 @@ def complete_enumeration(ctx, rule='complete-enumeration'):
         for b in bodies:
             for c in b.calls():
                 if SHORT.search(c.callee):
+                    # `next` driving a `for` loop that runs to exhaustion is a complete enumeration: every path from the loop
+                    # body leads back to this call (no break / return inside)
+                    if c.callee.endswith('Iterator::next') and c.target is not None and c.bb in b.reachable_blocks(c.target):
+                        body_reach = b.reachable_blocks(c.target, stop={c.bb})
+                        F_ = ctx.facts(b)
+                        # blocks after the loop: reached through the None edge of the switch on the result
+                        exits = set()
+                        for x in body_reach:
+                            t_ = b.term(x)
+                            if t_[0] == 'switch':
+                                for dst, lab in b.succ_edges(x):
+                                    if any(l[0] == 'variant' and l[2] == 'None' and l[3] and 'Iterator::next' in fmt_sym(b, l[1]) for l in F_.edge_literals(x, lab)):
+                                        exits.add(dst)
+                        inner = b.reachable_blocks(c.target, stop={c.bb} | exits) - exits
+                        if not any(rb in inner for rb in b.return_blocks()) and exits:
+                            pipes += 1
+                            continue
                     bad.append('%s at %s' % (c.callee.rsplit('::', 1)[-1], c.loc))
                 if re.search(r'Iterator::(filter|map|collect|for_each|cloned)$', c.callee) or c.callee.endswith('References::filter_references_by_type'):
                     pipes += 1
